@@ -15,6 +15,10 @@ CHECKS = {
             "Lean 4 theorems over a hand-written model of Uniform/WeightedComposite (exact rationals, arbitrary child lists) + differential correspondence + independent oracle (exact and float-tolerance streams)",
             "Conservation, proportionality, share bounds, read-back, supply sum, fitness range and the documented fallbacks are Lean theorems for child lists of any length; the model is tied to uniform.py/weighted.py on every run by executing generated op histories on both.",
             "Trusted: Lean kernel + standard axioms; the model (sampling correspondence); CPython Fraction arithmetic; float rounding only judged by the oracle up to 1e-9."),
+    "C08": ("§6 C08",
+            "Lean 4 theorems stating the decision logic of the four controllers outright (threshold selection proved for any declaration order via a verified insertion sort) + differential correspondence (Stepwise through run() under trio MockClock) + independent oracle",
+            "Bound, direction, exactness and no-change clauses of LinearController, the three cases of RelativeSupplyController, greatest-threshold selection of Stepwise and DemandSwitch (any table size, any order) and the exactly-one-delegate clause are Lean theorems; the models are tied to linear.py, relative_supply.py, stepwise.py, switch.py by running generated step sequences on both.",
+            "Trusted: Lean kernel + standard axioms; the models (sampling correspondence); CPython sorted(); trio MockClock to drive Stepwise.run; exact arithmetic only."),
 }
 
 PENDING_REASON = "check not built yet in this session (planned: Lean model + proof + correspondence, see DESIGN.md work order); not claimed until its check exists"
